@@ -256,7 +256,8 @@ _ALSO = {
             "text, for the io-writer and Display entry points); a token `+c` / `-c` with c an R7RS <sign subsequent> "
             "character (138 cases) is read as a symbol, as the printer writes such names verbatim; the integer boundary "
             "magnitudes (0, 1, 2^63-1, 2^63, 2^63+1, 2^64-1, both signs) keep their representation when read (shared with C05); "
-            "the number printer hands the sink exactly the text itoa / ryu produced, once, on every path.", None),
+            "the number printer hands the sink exactly the text itoa / ryu produced, once, on every path; the byte-vector "
+            "reader accepts an element n exactly for 0 <= n <= 255 and stores n (the element ranges over all of u64).", None),
     "C02": ("the empty list is printed as `()` under every printer option value; with the nil-as-false option nil is "
             "written exactly as `false` is under every boolean syntax; with Emacs Lisp bytes syntax each of the 256 byte "
             "values is written as a three-digit octal escape between quotes and the reader's octal decoder yields the same "
@@ -315,7 +316,8 @@ _ALSO = {
             "the dotted-tail handling of the list twins maps each tail token to the same outcome; after a `.` both list "
             "parsers classify the following byte identically (dotted tail vs symbol starting with a dot) for all 256 byte "
             "values and end of input; the hand-written, iterative clone of the span information rebuilds the chain it is given "
-            "cell for cell, terminator kind for terminator kind and span for span (10 structural chains).", None),
+            "cell for cell, terminator kind for terminator kind and span for span (10 structural chains); value_iter and "
+            "datum_iter are fused by the same sticky flag on every error return (shared with C12).", None),
     "C11": ("for a quote shorthand the end position handed to Datum::quotation is read before the quoted datum is parsed; "
             "reader fields are identified by type and accessors by signature; the stream's line/column counter and the "
             "slice's recount special-case exactly the same byte values (only LF) and advance for each of the others (256 "
